@@ -259,6 +259,12 @@ def _die_view(d):
 
 
 OPS = {}
+_DRAIN = [list]
+
+
+def _d(it):
+    """consume an iterator of the library: plainly, or (L5) with the streams moved between the steps"""
+    return _DRAIN[0](it)
 
 
 def _op(name):
@@ -270,7 +276,7 @@ def _op(name):
 
 @_op('iter_CUs')
 def _o1(di, o):
-    return [(c.cu_offset, c.cu_die_offset, c.size, c['version']) for c in di.iter_CUs()]
+    return [(c.cu_offset, c.cu_die_offset, c.size, c['version']) for c in _d(di.iter_CUs())]
 
 
 @_op('get_CU_at(B)')
@@ -291,7 +297,7 @@ def _o4(di, o):
 
 @_op('iter_DIEs(A)')
 def _o5(di, o):
-    return [_die_view(d) for d in di.get_CU_at(0).iter_DIEs()]
+    return [_die_view(d) for d in _d(di.get_CU_at(0).iter_DIEs())]
 
 
 @_op('DIE_by_offset(base)')
@@ -301,7 +307,7 @@ def _o6(di, o):
 
 @_op('children(ns)')
 def _o7(di, o):
-    return [c.offset for c in di.get_CU_at(0).get_DIE_from_refaddr(o['ns']).iter_children()]
+    return [c.offset for c in _d(di.get_CU_at(0).get_DIE_from_refaddr(o['ns']).iter_children())]
 
 
 @_op('parent(base)')
@@ -400,7 +406,7 @@ def _elf_fixture(cls, little):
     symsz = L.sizeof('SYM', cls)
     symoff = img.blob(sum([L.encode('SYM', cls, little, dict(st_name=[0, 1, 3][i], st_value=0x100 + i, st_info=0x12, st_shndx=1 if i else 0)) for i in range(3)], []), align=8)
     w = lambda v: enc.enc_int(v, 4, little)
-    note = w(4) + w(4) + w(3) + [0x47, 0x4e, 0x55, 0] + [1, 2, 3, 4]
+    note = w(4) + w(4) + w(3) + [0x47, 0x4e, 0x55, 0] + [1, 2, 3, 4] + w(2) + w(1) + w(9) + [0x58, 0, 0, 0] + [7, 0, 0, 0] + w(0) + w(0) + w(5)
     noteoff = img.blob(note, align=4)
     dynsz = L.sizeof('DYN', cls)
     tags = [(1, 6), (5, stroff), (6, symoff), (10, len(dynstr)), (11, symsz), (0, 0)]
@@ -417,17 +423,17 @@ def _elf_fixture(cls, little):
 
 
 ELF_OPS = {
-    'sections': lambda e: [(s.name, type(s).__name__, s['sh_offset'], s['sh_size']) for s in e.iter_sections()],
+    'sections': lambda e: [(s.name, type(s).__name__, s['sh_offset'], s['sh_size']) for s in _d(e.iter_sections())],
     'section_by_name': lambda e: [(n, (lambda s: None if s is None else s['sh_offset'])(e.get_section_by_name(n))) for n in ('.dynsym', '.nope', '.dynstr')],
     'section_index': lambda e: [e.get_section_index(n) for n in ('.dynamic', '.nope')],
-    'segments': lambda e: [(type(s).__name__, s['p_offset'], s['p_filesz']) for s in e.iter_segments()],
-    'symbols': lambda e: [(s.name, s['st_value']) for s in e.get_section_by_name('.dynsym').iter_symbols()],
+    'segments': lambda e: [(type(s).__name__, s['p_offset'], s['p_filesz']) for s in _d(e.iter_segments())],
+    'symbols': lambda e: [(s.name, s['st_value']) for s in _d(e.get_section_by_name('.dynsym').iter_symbols())],
     'symbol_by_name': lambda e: [(lambda r: None if r is None else [x['st_value'] for x in r])(e.get_section_by_name('.dynsym').get_symbol_by_name(n)) for n in ('gg', 'zz')],
-    'dynamic_tags': lambda e: [(str(t.entry.d_tag), t.entry.d_val) for t in e.get_section_by_name('.dynamic').iter_tags()],
-    'needed': lambda e: [t.needed for t in e.get_section_by_name('.dynamic').iter_tags('DT_NEEDED')],
-    'segment_symbols': lambda e: [(s.name, s['st_value']) for s in [x for x in e.iter_segments() if type(x).__name__ == 'DynamicSegment'][0].iter_symbols()] if False else
-    [(str(t.entry.d_tag), t.entry.d_val) for t in [x for x in e.iter_segments() if type(x).__name__ == 'DynamicSegment'][0].iter_tags()],
-    'notes': lambda e: [(n['n_name'], str(n['n_type']), n['n_offset'], n['n_size']) for n in e.get_section_by_name('.note.x').iter_notes()],
+    'dynamic_tags': lambda e: [(str(t.entry.d_tag), t.entry.d_val) for t in _d(e.get_section_by_name('.dynamic').iter_tags())],
+    'needed': lambda e: [t.needed for t in _d(e.get_section_by_name('.dynamic').iter_tags('DT_NEEDED'))],
+    'segment_symbols': lambda e: [(s.name, s['st_value']) for s in [x for x in _d(e.iter_segments()) if type(x).__name__ == 'DynamicSegment'][0].iter_symbols()] if False else
+    [(str(t.entry.d_tag), t.entry.d_val) for t in _d([x for x in _d(e.iter_segments()) if type(x).__name__ == 'DynamicSegment'][0].iter_tags())],
+    'notes': lambda e: [(n['n_name'], str(n['n_type']), n['n_offset'], n['n_size']) for n in _d(e.get_section_by_name('.note.x').iter_notes())],
     'section_data': lambda e: e.get_section_by_name('.dynstr').data(),
     'string': lambda e: e.get_section_by_name('.dynstr').get_string(3),
     'address_offsets': lambda e: list(e.address_offsets(0x10, 4)),
@@ -449,6 +455,38 @@ def h_elf_stream_pos(ctx):
     ctx.outcome('ok')
     ctx.check_eq('L2/elf/%s' % cfg['op'], _norm(got), _norm(want))
     ctx.check_eq('L2/elf/repeat/%s' % cfg['op'], _norm(op(elf)), _norm(want))
+
+
+# ------------------------------------------------------------------ L5 iterators suspended while the streams move
+def h_iterators(ctx):
+    """every iterator of the alphabet, with the shared streams moved to an arbitrary position between two steps, yields what it
+    yields when drained in one go"""
+    cfg = ctx.cfg
+    if cfg['kind'] == 'elf':
+        EF = ctx.lib('elf.elffile')
+        data = _elf_fixture(cfg['elfclass'], cfg['little'])
+        op = ELF_OPS[cfg['op']]
+        want = _norm(op(EF.ELFFile(ctx.stream(data))))
+        obj = EF.ELFFile(ctx.stream(data))
+        run = lambda: op(obj)
+    else:
+        secs, offs = _dwarf_fixture(ctx, True)
+        di0, _ = mk_dwarfinfo(ctx, True, 8, **secs)
+        want = _norm(OPS[cfg['op']](di0, offs))
+        di, _ = mk_dwarfinfo(ctx, True, 8, **secs)
+        run = lambda: OPS[cfg['op']](di, offs)
+    _DRAIN[0] = ctx.drain
+    try:
+        got = run()
+    finally:
+        _DRAIN[0] = list
+    ctx.outcome('ok')
+    ctx.check_eq('L5/%s/%s' % (cfg['kind'], cfg['op']), _norm(got), want)
+    ctx.check_eq('L5/%s/%s/again' % (cfg['kind'], cfg['op']), _norm(run()), want)
+
+
+ITER_ELF_OPS = ['sections', 'segments', 'symbols', 'dynamic_tags', 'needed', 'segment_symbols', 'notes']
+ITER_DWARF_OPS = ['iter_CUs', 'iter_DIEs(A)', 'children(ns)', 'CFI_entries', 'pubnames', 'line_program(A)']
 
 
 # ------------------------------------------------------------------ L3 memo tables
@@ -591,6 +629,10 @@ HARNESSES = [
     H('h10_L2_elf_stream_pos', h_elf_stream_pos,
       lambda tier: [dict(elfclass=c, little=l, op=o, warm=w) for c, l in ((64, True), (32, False)) for o in ELF_OPS for w in ([], ['sections'])], expect=('ok',),
       desc='L2: section / segment / symbol / dynamic / note / string / data / address-map access on an ELF fixture with the file stream position symbolic'),
+    H('h10_L5_iterators', h_iterators,
+      lambda tier: [dict(kind='elf', elfclass=c, little=l, op=o) for c, l in ((64, True), (32, False)) for o in ITER_ELF_OPS] + [dict(kind='dwarf', op=o) for o in ITER_DWARF_OPS], expect=('ok',),
+      desc='L5: every iterator of the alphabet (sections, segments, symbols, dynamic tags, notes, units, entries, children, call-frame entries, name table) consumed step by step with all '
+           'streams moved to a symbolic position between two steps yields what it yields when drained at once'),
     H('h10_L3_memo', h_memo, _memo_instances, expect=('ok',),
       desc='L3: after any single earlier query, after pairs / longer histories and after the whole alphabet in both orders, every query returns its cold answer (unit list, entry lists, abbreviation, '
            'line-program, type-unit and decoded-table memos)'),
